@@ -73,18 +73,101 @@ def init():
     import decimal
 
     _decimal_context = decimal.getcontext().copy()  # as demeter's import left it (prec = 35)
+    _snapshot_module_state()
     _done = True
 
 
 _decimal_context = None
+_pristine = []  # (container object, copy of its import-time content)
+_caches = []  # functions with cache_clear()
+
+
+def _snapshot_module_state():
+    """Remember the import-time content of every mutable container that lives at module or class level in demeter, and
+    of mutable default arguments of its functions (the places where state can outlive a back test inside one process)."""
+    import copy
+    import importlib
+    import pkgutil
+    import types
+
+    import demeter
+
+    for mi in pkgutil.walk_packages(demeter.__path__, "demeter."):
+        try:
+            importlib.import_module(mi.name)
+        except Exception:
+            pass
+    seen = set()
+
+    def keep(obj):
+        if isinstance(obj, (dict, list, set)) and id(obj) not in seen:
+            seen.add(id(obj))
+            try:
+                _pristine.append((obj, copy.deepcopy(obj)))
+            except Exception:
+                try:
+                    _pristine.append((obj, copy.copy(obj)))
+                except Exception:
+                    pass
+
+    def scan_func(f):
+        f = getattr(f, "__func__", f)
+        if hasattr(f, "cache_clear"):
+            _caches.append(f)
+        f = getattr(f, "__wrapped__", f)
+        for d in (getattr(f, "__defaults__", None) or ()):
+            keep(d)
+        for d in (getattr(f, "__kwdefaults__", None) or {}).values():
+            keep(d)
+
+    for name, mod in list(sys.modules.items()):
+        if not (name == "demeter" or name.startswith("demeter.")) or mod is None:
+            continue
+        for k, v in list(vars(mod).items()):
+            if k.startswith("__"):
+                continue
+            if isinstance(v, (dict, list, set)):
+                keep(v)
+            elif isinstance(v, types.FunctionType) and getattr(v, "__module__", None) == name:
+                scan_func(v)
+            elif hasattr(v, "cache_clear") and callable(v):
+                scan_func(v)
+            elif isinstance(v, type) and getattr(v, "__module__", None) == name:
+                for ck, cv in list(vars(v).items()):
+                    if ck.startswith("__") and ck != "__init__":
+                        continue
+                    if isinstance(cv, (dict, list, set)):
+                        keep(cv)
+                    elif isinstance(cv, (types.FunctionType, classmethod, staticmethod)) or hasattr(cv, "cache_clear"):
+                        scan_func(cv)
+
+
+def _restore_module_state():
+    for obj, content in _pristine:
+        try:
+            if obj != content:
+                obj.clear()
+                if isinstance(obj, list):
+                    obj.extend(content)
+                else:
+                    obj.update(content)
+        except Exception:
+            pass
+    for f in _caches:
+        try:
+            f.cache_clear()
+        except Exception:
+            pass
 
 
 def reset_process_state():
-    """Every scenario starts from the process state demeter's import left behind.  The only process-global state the
-    simulated code can reach is the thread's Decimal context; without this reset a scenario's outcome could depend
+    """Every scenario starts from the process state demeter's import left behind: the thread's Decimal context and the
+    import-time content of every module-level / class-level mutable container, mutable default argument and lru cache in
+    demeter (a class-level memo, a module-level cache, `def f(x=[])`).  Without this reset a scenario's outcome could depend
     on which scenarios the same worker process ran before it (no replay), and a leak *inside* a scenario - e.g. a
     read-only helper that changes the global precision - could not be told from one inherited from an earlier run."""
     import decimal
 
     if _decimal_context is not None:
         decimal.setcontext(_decimal_context.copy())
+    _restore_module_state()  # class-level / module-level containers, mutable default arguments, lru caches
